@@ -604,8 +604,6 @@ def run(tier, seed, replay=None):
         "meaning clauses (tensorfy(exported graph) = matrix of the diagram; imported diagram "
         "denotes the graph) rest on pyzx.tensorfy and the harness evaluator through the oracle "
         "only: neither semantics is in the Lean model",
-        "roundtrip_cod (the imported diagram has |cod| outputs) is stated, not proved; the oracle "
-        "checks the arities of every imported diagram",
         "from_pyzx: the round trip is NOT correct in the tree (findings C17-1, C17-2; witnesses "
         "decided in Lean, failures attributed by re-running the patched source); the theorems "
         "about the import cover typing, the spider list, refusal and move",
